@@ -1031,6 +1031,10 @@ def family_cases(thorough: bool = False) -> list[tuple]:
     for which_id in range(len(FC_IDS)):
         for sender in range(len(FC_SENDERS)):
             cases.append(("forged-created", which_id, sender))
+    for ncook in (1, 2):
+        for link in range(ncook):
+            for linker in ("ADV", "O1"):
+                cases.append(("hidden-extended", ncook, link, linker))
     for shape in range(len(REUSE_SHAPES)):
         for hold in ("create", "created"):
             # (seconds between destroy and re-use, seconds the old owner's extend was delayed): with a prompt extend
@@ -1044,7 +1048,8 @@ def family_cases(thorough: bool = False) -> list[tuple]:
 def run_family_case(seed: int, case: tuple) -> tuple[list[tuple], str, bytes, int]:
     """One execution from scratch. Returns ([(key, what)], status, abstract digest, injections)."""
     fn = {"halfbuilt": _run_halfbuilt, "closing": _run_closing, "simfirst": _run_simfirst, "nested": _run_nested,
-          "reuse": _run_reuse, "hidden": _run_hidden, "forged-created": _run_forged_created}[case[0]]
+          "reuse": _run_reuse, "hidden": _run_hidden, "forged-created": _run_forged_created,
+          "hidden-extended": _run_hidden_extended}[case[0]]
     return fn(seed, *case[1:])
 
 
@@ -1470,6 +1475,69 @@ def _run_hidden(seed: int, ncook: int, link: int, removal: str, linker: str, w_b
                 status = "link-refused"
                 found += World5.table_diff(before, after)
         viol += _labelled([(o, f"{d}: {where}") for o, d in found], label)
+        if not viol:
+            viol += [(k, f"{what}: {where}") for k, what in _traffic(world, label)]
+        return viol, status, world.digest(), world.injections
+    finally:
+        world.close()
+
+
+def _run_hidden_extended(seed: int, ncook: int, link: int, linker: str) -> tuple[list[tuple], str, bytes, int]:
+    """
+    X = O1 -1-> X1 -2-> X2: after its first hop X registers ncook rendezvous cookies at X1 (X1 holds an exit entry for
+    it then), and only afterwards extends to X2 (X1's exit entry becomes a relay pair).  O1 destroys X; 61 s later
+    Z = O2 -1-> X1 takes id 1; W = <linker> -7-> X1 sends link-e2e(cookie[link]): nothing of Z may change.
+    """
+    plans = [("O1", ("X1", "X2"), (1, 2)), ("O2", ("R2", "X1"), (5, 6)), ("O2", ("X1",), (1,)), (linker, ("X1",), (7,))]
+    world = World5(4, seed, custom=plans, defer=(0, 2, 3), hidden=True, no_traffic=True)
+    try:
+        w = world.w
+        x = world.plans[0]
+        rendezvous = w.ov["X1"]
+        cookies = [bytes([0x61 + i]) * 20 for i in range(ncook)]
+        label = "HS/extended"
+        c = world._start(x)
+        w.loop.settle()
+        w.deliver(0)                    # create  O1 -> X1
+        w.deliver(0)                    # created X1 -> O1; O1 answers with its extend
+        if len(w.inflight) != 1 or len(c.hops) != 1:
+            raise HarnessError("hidden-extended: expected exactly the extend in flight")
+        extend = w.inflight.pop(0)
+        world.circ_obj[0] = c
+        for i, cookie in enumerate(cookies):
+            w.nodes["O1"].run(w.ov["O1"].send_cell, c.hop.address, EstablishRendezvousPayload(1, 100 + i, cookie))
+            w.flush()
+            world.injections += 1
+        if set(rendezvous.rendezvous_point_for) != set(cookies):
+            raise HarnessError(f"hidden-extended: X1 registered {len(rendezvous.rendezvous_point_for)} of {ncook} cookies")
+        w.inflight.append(extend)
+        w.flush()
+        world._restore_candidates()
+        if c.state != CIRCUIT_STATE_READY or len(c.hops) != 2:
+            raise HarnessError(f"hidden-extended: X is {c.state} with {len(c.hops)} hops")
+        world._take_snapshot()
+        w.nodes["O1"].run(w.ov["O1"].remove_circuit, 1, "c05", destroy=1)
+        w.flush()
+        w.run_for(61.0)
+        if world.holds("X1", 1) or world.holds("O1", 1):
+            raise HarnessError(f"hidden-extended: X was not torn down: {w.tables()}")
+        world._take_snapshot()
+        viol: list[tuple] = []
+        built = world.build_late(2)
+        status = "reuse-refused" if built is None else "stale-link-after-reuse"
+        if built:
+            viol += _labelled(built, label)
+        if world.build_late(3) != []:
+            raise HarnessError("hidden-extended: the linker's circuit could not be built")
+        if viol:
+            return viol, "violated", world.digest(), world.injections
+        w.nodes[linker].run(w.ov[linker].send_cell, world.circ_obj[3].hop.address, LinkE2EPayload(7, 200, cookies[link]))
+        w.flush()
+        world.injections += 1
+        where = (f"{linker} sent link-e2e(cookie {link + 1} of {ncook}) over its circuit 7 to X1; the cookies were "
+                 f"registered on O1's circuit 1 while X1 was its exit, the circuit was then extended through X1 to X2, "
+                 f"destroyed, and id 1 given to O2 61 s later")
+        viol += _labelled([(o, f"{d}: {where}") for o, d in world.check()], label)
         if not viol:
             viol += [(k, f"{what}: {where}") for k, what in _traffic(world, label)]
         return viol, status, world.digest(), world.injections
